@@ -277,7 +277,7 @@ def run(ctx):
                       replay='%d TLC-simulated histories of depth 7 on a real 6-layer model' % (40 if q else 400))
     ctx.assumptions = ['fixture opacities are exact per layer (LayerOpacity/FixtureCIA)',
                        'a freshly built model at the current parameters is the reference for history independence',
-                       'model_full_contrib() is used after at least one model()/model_contrib() on the same grid (documented flow of taurex.py)']
+                       'the reference for model_full_contrib() is a fresh model on which model() ran first (the flow of taurex.py)']
     ctx.check_spec('compose-repaired', 'MC_Compose', 'MC_Compose_%s.cfg' % ctx.tier)
     ctx.expect_refuted('compose-as-found', 'MC_Compose', 'MC_Compose_asbuilt.cfg', 'NoStaleRead')
     ctx.check_spec('product-rule', 'MC_Transmission', 'MC_Trans_acc_%s.cfg' % ctx.tier, timeout=1800)
@@ -296,9 +296,6 @@ def run(ctx):
             if k in seen:
                 continue
             seen.add(k)
-            # documented flow: the per-component operation follows a model evaluation
-            if not any(op in ('model', 'contrib') for op, _ in b['hist'][:1]):
-                b = dict(b, hist=[['model', '']] + b['hist'])
             replay_behaviour(ctx, b)
             ctx.traces += 1
         ctx.add_sample(dict(behaviour=behs[0]))
